@@ -50,7 +50,7 @@ pub const W30B: [u8; 7] = *b"`]]]_CT";
 /// (name, word, roll value).  roll+1 = 0xFFFFFFFF = 3*0x55555555 is the LARGEST multiple of 3 (quotient odd:
 /// level 0 only); roll+1 = 0xFFFFFFFC = 3*0x55555554 (levels 0..=2); roll+1 = 3 and 6 are the smallest ones;
 /// roll+1 = 0xBFFFFFFF is just below 3*2^30 and must not trigger.
-pub const CORNER_WORDS: [(&str, [u8; 7], u32); 6] = [
+pub const CORNER_WORDS: [(&str, [u8; 7], u32); 7] = [
     ("Xfe", [96, 126, 63, 27, 152, 112, 217], 0xFFFF_FFFE),
     ("Xfb", [96, 126, 63, 27, 152, 115, 225], 0xFFFF_FFFB),
     ("X2", [96, 126, 63, 27, 152, 114, 223], 2),
@@ -59,6 +59,8 @@ pub const CORNER_WORDS: [(&str, [u8; 7], u32); 6] = [
     // rolling hash exactly 0 although the window is not zero (h1 + h2 + h3 = 2^32): the "no trailing piece" rule
     // looks at the 32-bit value, not at the window contents
     ("X0", [0x01, 0x58, 0xf8, 0xf8, 0xf8, 0x58, 0x56], 0),
+    // rolling hash exactly 0 with a non-zero window, and a following zero byte ends a piece (levels 0 and 1)
+    ("X0t", [0x00, 0x78, 0xf8, 0xf8, 0xf8, 0x3d, 0xdd], 0),
 ];
 
 /// Validate the table against the reference rolling hash.  A failure is a
